@@ -386,7 +386,12 @@ func runProgram(c *kit.Ctx, id string) {
 		want := new(big.Int).Sub(sumBefore, tr.selfBurn)
 		c.Evals(1)
 		if sumAfter.Cmp(want) != 0 {
-			c.Violation("total-balance-changed", fmt.Sprintf("tx%d: sum of balances before %v, after execution %v, burnt by SELFDESTRUCT-to-self in surviving frames %v", ti, sumBefore, sumAfter, tr.selfBurn), pp.witness(ti, "after execution", nil, between))
+			cl, extra := "total-balance-changed", ""
+			surplus := new(big.Int).Sub(sumAfter, want)
+			if a, amt := resurrected(st, res.Pre, burntAt, surplus); amt > 0 {
+				cl, extra = "burnt-balance-resurrected", fmt.Sprintf("; the surplus of %d is exactly the value that was destroyed together with account %x when it was removed at the end of an earlier transaction; the address came into being again in this transaction", amt, a[:])
+			}
+			c.Violation(cl, fmt.Sprintf("tx%d: sum of balances before %v, after execution %v, burnt by SELFDESTRUCT-to-self in surviving frames %v%s", ti, sumBefore, sumAfter, tr.selfBurn, extra), pp.witness(ti, "after execution", nil, between))
 			bad = true
 			break
 		}
@@ -490,9 +495,15 @@ func runProgram(c *kit.Ctx, id string) {
 		if res.Burnt > 0 {
 			c.Count("transactions_burning_value", 1)
 		}
-		for a, ac := range res.Pre.Accts {
-			if ac.Suicided && ac.Bal > 0 {
-				burntAt[a] += ac.Bal
+		if mode == 3 {
+			burntAt = map[model.C16Addr]uint64{} // a re-opened StateDB has forgotten the removed objects
+		} else {
+			for a, ac := range res.Pre.Accts {
+				if ac.Suicided && ac.Bal > 0 {
+					burntAt[a] = ac.Bal
+				} else {
+					delete(burntAt, a)
+				}
 			}
 		}
 		_ = prevPost
@@ -540,6 +551,27 @@ func sumBalances(st *state.StateDB, addrs []common.Address) *big.Int {
 }
 
 // ---- comparison with the reference -------------------------------------------------------------------
+
+// resurrected attributes a surplus of value to an account that was removed, holding value, at the end
+// of an earlier transaction (state not re-opened since): either the account now holds exactly that much
+// more than the reference says, or the whole surplus equals that amount.
+func resurrected(st *state.StateDB, m *model.C16State, burntAt map[model.C16Addr]uint64, surplus *big.Int) (model.C16Addr, uint64) {
+	for a, amt := range burntAt {
+		want := uint64(0)
+		if ac := m.Accts[a]; ac != nil {
+			want = ac.Bal
+		}
+		if g := st.GetBalance(ca(a)); amt > 0 && g.IsUint64() && g.Uint64() == want+amt {
+			return a, amt
+		}
+	}
+	for a, amt := range burntAt {
+		if amt > 0 && surplus != nil && surplus.IsUint64() && surplus.Uint64() == amt {
+			return a, amt
+		}
+	}
+	return model.C16Addr{}, 0
+}
 
 func wordHex(w model.C16Word) string {
 	s := strings.TrimLeft(hex.EncodeToString(w[:]), "0")
